@@ -21,6 +21,8 @@ def params(c):
           "delta_factor": c["dfnum"] / c["dfden"], "only_triu": bool(c["triu"])}
     kw["penalty"] = (c["pen"] / SC) if (c["pen"] or not c.get("pen_none")) else None
     kw["window"] = c["w"] if c["w"] else None
+    if any(c.get("psi", [0])):
+        kw["psi"] = tuple(c["psi"])          # (begin s1, end s1, begin s2, end s2): only the matrix routes take it
     return kw
 
 
@@ -68,7 +70,7 @@ def run_c18(it):
     def compact_expand():
         _d, wps = dtw.warping_paths_affinity_fast(a, b, compact=True, **kw)
         full = np().empty((l1 + 1, l2 + 1), dtype=np().double)
-        st = dtw_cc.DTWSettings(window=kw["window"], penalty=kw["penalty"])
+        st = dtw_cc.DTWSettings(window=kw["window"], penalty=kw["penalty"], psi=kw.get("psi"))
         dtw_cc.wps_expand_slice(wps, full, l1, l2, 0, l1 + 1, 0, l2 + 1, st)
         return full
     addm("c:compact+wps_expand_slice[full range]", compact_expand)
@@ -78,7 +80,7 @@ def run_c18(it):
                                ",self" if variant.get("self") else "")
         matches = []
         try:
-            kw2 = {k: v for k, v in kw.items()}
+            kw2 = {k: v for k, v in kw.items() if k != "psi"}
             if variant.get("self"):
                 kw2["only_triu"] = None
                 lc = local_concurrences(a, None, use_c=variant["use_c"], compact=variant.get("compact"), **kw2)
